@@ -195,7 +195,39 @@ def run(facts, cg=None):
         n_bd += 1
         on_file = any(q.endswith('fs::file::File::metadata') or q == 'std::fs::File::metadata' for q in calls)
         by_name = [q for q in calls if q.split('::')[-1] in ('symlink_metadata', 'metadata') and 'File::' not in q and '::fs::' in q]
-        instances.append({'rule': 'R-SIZECHECK(object)', 'function': b.q, 'metadata_of_open_file': on_file, 'metadata_by_path': by_name})
+        # ... with the file-type bits of st_mode: (mode & S_IFBLK) == S_IFBLK or (mode & S_IFMT) == S_IFBLK, S_IFBLK = 0o060000.  One digit
+        # less (0o6000) is the set-uid + set-gid pair: a regular file with mode 6755 is taken for a device and never resized
+        masks = []
+        for bi_ in b.live:
+            for st_ in b.blocks[bi_]['stmts']:
+                if st_['k'] == 'assign' and st_['rv']['k'] == 'binop' and st_['rv']['op'] in ('Eq', 'Ne'):
+                    tt = simplify(T.of_rvalue(b, st_['rv'], 0))
+                    if has_call(tt, 'st_mode'):
+                        # the two constants of `(st_mode() & M) == V`, read off their positions (not whatever constant the way to the
+                        # metadata happens to contain)
+                        def _c(x):
+                            while isinstance(x, tuple) and x[0] == 'cast':
+                                x = x[2]
+                            return x[1] if isinstance(x, tuple) and x[0] == 'const' and isinstance(x[1], int) else None
+                        V = _c(tt[2]) if _c(tt[2]) is not None else _c(tt[3])
+                        A = tt[3] if _c(tt[2]) is not None else tt[2]
+                        while isinstance(A, tuple) and A[0] == 'cast':
+                            A = A[2]
+                        M = None
+                        if isinstance(A, tuple) and A[0] == 'binop' and A[1] == 'BitAnd':
+                            M = _c(A[2]) if _c(A[2]) is not None else _c(A[3])
+                        if V is None or M is None:
+                            continue            # another shape (is_block_device(), a helper): not this rule's business
+                        consts = sorted({V, M})
+                        masks.append(consts)
+                        if consts not in ([0x6000], [0x6000, 0xF000]):
+                            key = 'R-SIZECHECK|%s|device-mask' % b.q
+                            if key not in {x['key'] for x in findings}:
+                                findings.append({'rule': 'R-SIZECHECK', 'key': key, 'function': b.q,
+                                                 'what': 'the block-device test at %s compares st_mode with %s; the file-type bits are S_IFMT = 0o170000 and a block device is '
+                                                         'S_IFBLK = 0o060000 (0x6000): other bits are permission bits, a regular file that has them set is taken for a device'
+                                                         % (st_['loc'], [oct(c) for c in consts])})
+        instances.append({'rule': 'R-SIZECHECK(object)', 'function': b.q, 'metadata_of_open_file': on_file, 'metadata_by_path': by_name, 'st_mode_constants': masks})
         if by_name or not on_file:
             key = 'R-SIZECHECK|%s|device-test-by-name' % b.q
             if key not in {x['key'] for x in findings}:
